@@ -57,6 +57,10 @@ CLAIMED = {
             'bounded, solver-complete inside the bound: for 3..4 knots (5 thorough) with ANY strictly increasing abscissae (gaps 1e-4..1e4) and ordinates: interpolation, C1, C2, natural ends, straight lines, evaluation with the right piece at any scale; area = trapezoid sum and additive n<=5; simplex d<=2, <=2 iterations, ANY deterministic objective: reported value = f(returned point) <= best initial vertex, iteration cap respected',
             'exact reals for spline/area; convergence of the simplex to the minimiser not decided; objective values not NaN',
             'DESIGN.md 5/C19'),
+    'C18': ('CBMC bit-precise bounded model checking (SAT, IEEE doubles): k-means loop unwound past its cap with the labelling/centroid steps havoced, simplex with an uninterpreted objective, and the NIPALS NaN-absorption step from an arbitrary loop-head state through the guarded hooks',
+            'bounded, solver-complete inside the bound: k-means (2 objects, any step results incl. NaN) and the simplex (d<=2, any deterministic objective) stop within their iteration caps; for PCA 2x2 EVERY loop state containing a NaN keeps the NaN and cannot exit (the non-termination mechanism); the finite input that reaches that state is a listed known finding re-run natively',
+            'known finding C18_nipals_nan (PCA/PLS/CPCA never return on data without residual variance) is recorded, not repaired; termination on regular data and finiteness of leading components are limit statements, not decided; PLS/CPCA loops not encoded',
+            'DESIGN.md 5/C18'),
 }
 NA = {
     'C16': 'behaviour lives inside SQLite and libc decimal formatting (FFI + file I/O); nothing of it is source in /repo that could be executed symbolically - an encoding would verify a hand-written SQL fake, not the code',
